@@ -35,7 +35,53 @@ def scratch():
 
 
 def _addr(s):
-    return re.sub(r" at 0x[0-9a-fA-F]+", " at 0x?", s)
+    """normalise what legitimately differs between two processes printing the same code object:
+    object addresses, and the listing order of frozenset elements (hash(None) and friends are
+    address-based, so even with PYTHONHASHSEED=0 a subprocess may list them in another order)"""
+    s = re.sub(r" at 0x[0-9a-fA-F]+", " at 0x?", s)
+    if "frozenset({" in s:
+        s = _canon_frozensets(s)
+    return s
+
+
+def _canon_frozensets(s):
+    out = []
+    i = 0
+    key = "frozenset({"
+    while True:
+        j = s.find(key, i)
+        if j < 0:
+            out.append(s[i:])
+            break
+        out.append(s[i:j + len(key)])
+        k = j + len(key)
+        depth = 0
+        start = k
+        parts = []
+        in_str = None
+        while k < len(s):
+            ch = s[k]
+            if in_str:
+                if ch == "\\":
+                    k += 1
+                elif ch == in_str:
+                    in_str = None
+            elif ch in "'\"":
+                in_str = ch
+            elif ch in "([{":
+                depth += 1
+            elif ch in ")]}":
+                if depth == 0:
+                    break
+                depth -= 1
+            elif ch == "," and depth == 0:
+                parts.append(s[start:k].strip())
+                start = k + 1
+            k += 1
+        parts.append(s[start:k].strip())
+        out.append(", ".join(sorted(_canon_frozensets(p_) for p_ in parts)))
+        i = k
+    return "".join(out)
 
 
 def render_dis(code):
